@@ -98,6 +98,8 @@ def parse_vc(path):
                 frm, to = frm.strip("\n"), to.strip("\n")
             else:
                 raise SystemExit("%s:%d: subst needs a '=>' line" % (path, cur["line"]))
+            if re.search(r"\n\s*\n//", "\n" + to) or re.search(r"\n\s*\n//", "\n" + frm):
+                raise SystemExit("%s:%d: subst text swallows a comment block after a blank line -- missing '@@ end'?" % (path, cur["line"]))
             cur.update(frm=frm, to=to, count=0)
             u.substs.append(cur)
         elif kind == "canary":
